@@ -79,7 +79,11 @@ type evEvent struct {
 	Receipt uint64           `json:"receipt_status"`
 }
 
-var evKinds = map[string]string{"FWD": "fwd", "SDO": "sdo", "SDS": "sds", "STO": "sto", "REV": "rev", "LOOP": "loop"}
+var evKinds = map[string]string{"FWD": "fwd", "SDO": "sdo", "SDS": "sds", "STO": "sto", "REV": "rev", "LOOP": "loop",
+	"DD2": "dd2", "DD0": "dd0", "DDS": "dds", "DRD": "drd", "RW": "rw"}
+
+// value of the inner CALLs of the caller contracts: 1000 gwei
+var evInnerWei = []byte{0xe8, 0xd4, 0xa5, 0x10, 0x00}
 
 type evWorld struct {
 	w       *bxWorld
@@ -102,8 +106,34 @@ func evInitCode(runtime []byte) []byte {
 	return append([]byte{0x60, byte(len(runtime)), 0x80, 0x60, 0x0b, 0x60, 0x00, 0x39, 0x60, 0x00, 0xf3}, runtime...)
 }
 
+// evCall: CALL(gas, to, value, 0, 0, 0, 0); POP.  value: nil = 0, "cv" = CALLVALUE, else PUSH5 wei
+func evCall(to ethcomm.Address, value string) []byte {
+	c := []byte{0x60, 0x00, 0x60, 0x00, 0x60, 0x00, 0x60, 0x00}
+	switch value {
+	case "":
+		c = append(c, 0x60, 0x00)
+	case "cv":
+		c = append(c, 0x34)
+	default:
+		c = append(append(c, 0x64), evInnerWei...)
+	}
+	c = append(c, 0x73)
+	c = append(c, to[:]...)
+	return append(c, 0x5a, 0xf1, 0x50)
+}
+
 func (e *evWorld) runtime(kind string) []byte {
 	switch kind {
+	case "dd2": // destruct the victim, re-fund it, destruct it again - in one transaction
+		return append(append(evCall(e.addr["SDO"], "amt"), evCall(e.addr["SDO"], "amt")...), 0x00)
+	case "dd0":
+		return append(append(evCall(e.addr["SDO"], ""), evCall(e.addr["SDO"], "")...), 0x00)
+	case "dds":
+		return append(append(evCall(e.addr["SDS"], "amt"), evCall(e.addr["SDS"], "amt")...), 0x00)
+	case "drd": // destruct inside a frame that is reverted, then destruct for real
+		return append(append(evCall(e.addr["RW"], "amt"), evCall(e.addr["SDO"], "amt")...), 0x00)
+	case "rw": // CALL(victim, callvalue); REVERT(0, 0)
+		return append(evCall(e.addr["SDO"], "cv"), 0x60, 0x00, 0x60, 0x00, 0xfd)
 	case "fwd": // CALL(gas, R, callvalue, 0,0,0,0); STOP
 		c := []byte{0x60, 0x00, 0x60, 0x00, 0x60, 0x00, 0x60, 0x00, 0x34, 0x73}
 		r := e.addr["R"]
@@ -247,6 +277,9 @@ func (e *evWorld) newGroup(g *evGroup) {
 		names = append(names, n)
 	}
 	sort.Strings(names)
+	for i, n := range names { // the contracts refer to each other: fix all addresses first
+		e.addr[n] = crypto.CreateAddress(dep, uint64(i))
+	}
 	for i, n := range names {
 		tx := e.signed(e.keys["DEPLOYER"], uint64(i), nil, new(big.Int), 300000, gwei, evInitCode(e.runtime(evKinds[n])))
 		r := e.apply(tx, e.height)
